@@ -6,6 +6,8 @@ package main
 import (
 	"fmt"
 	"go/types"
+	"os"
+	"runtime/debug"
 	"strings"
 
 	"golang.org/x/tools/go/ssa"
@@ -44,11 +46,16 @@ type Leaf struct {
 
 var leafCache = map[types.Type][]Leaf{}
 
+var lenientNow bool
+
 type unsupported struct{ msg string }
 
 func (u unsupported) Error() string { return "unsupported: " + u.msg }
 
 func unsup(format string, a ...interface{}) {
+	if os.Getenv("GOVC_DEBUG") != "" && !lenientNow {
+		debug.PrintStack()
+	}
 	panic(unsupported{fmt.Sprintf(format, a...)})
 }
 
@@ -102,7 +109,9 @@ func leavesOf(t types.Type) []Leaf {
 	var out []Leaf
 	switch u := t.Underlying().(type) {
 	case *types.Basic:
-		if u.Info()&types.IsString != 0 {
+		if u.Kind() == types.Invalid {
+			out = []Leaf{}
+		} else if u.Info()&types.IsString != 0 {
 			out = []Leaf{{"$r", RegionSort, LRegion, t}, {"$o", IntSort, LOff, t}, {"$l", IntSort, LLen, t}}
 		} else {
 			s := basicSort(u)
@@ -307,6 +316,9 @@ func wfAssumptions(ts []*Term, t types.Type, fresh bool) *Term {
 				cs = append(cs, BVUlt(ts[i+1], lim))
 				if !fresh {
 					cs = append(cs, Neq(regionNibble(r), BVConst(0xF, 4)))
+					if r.op == "var" {
+						regionClass[r.id] = 0x7FFF
+					}
 				}
 				continue
 			}
@@ -317,6 +329,9 @@ func wfAssumptions(ts []*Term, t types.Type, fresh bool) *Term {
 				if !fresh {
 					nb := regionNibble(r)
 					cs = append(cs, Or(Eq(nb, BVConst(0xC, 4)), Eq(nb, BVConst(0xD, 4)), And(Eq(r, BVConst(0, 64)), Eq(ln, BVConst(0, IntSort)))))
+					if r.op == "var" {
+						regionClass[r.id] = maskPreString
+					}
 				}
 			} else {
 				cp := ts[i+3]
@@ -325,6 +340,9 @@ func wfAssumptions(ts []*Term, t types.Type, fresh bool) *Term {
 				if !fresh {
 					nb := regionNibble(r)
 					cs = append(cs, Or(BVUlt(nb, BVConst(0xC, 4)), Eq(nb, BVConst(0xE, 4))))
+					if r.op == "var" {
+						regionClass[r.id] = maskPreMutable
+					}
 				}
 			}
 		case LRef, LMap, LChan:
